@@ -265,6 +265,8 @@ def run(ctx):  # noqa: C901
     okl = any(flw.conds(f2) and "builtins.len" in repr(N(flw.conds(f2)[-1][0])) and "input_state_rho_dims" in repr(N(flw.conds(f2)[-1][0])) for _, f2 in res.raises)
     ctx.ob("R-GUARD", fos, "bipartite dims required", okl, "len(dims) == 2 enforced" if okl else "dims-length guard missing")
     sk = Skeleton(m, fos)
+    from ..sdp import r_hermitian_vars
+    r_hermitian_vars(ctx, fos, sk)
     if sk.probs:
         p = sk.probs[0]
         ctx.ob("R-SDP", fos, "objective sense == max", p.sense == "max", p.sense or "?")
